@@ -268,4 +268,15 @@ theorem jux_more (a u b v w f : String) (hu : u ≠ "%") (hv : v ≠ "%") (hw : 
     run (g + 60) .statements [.ident f, .num a] = some (.applyFn (.ident f) (.num a), []) := by
   refine ⟨?_, ?_, ?_, ?_⟩ <;> simp [run, leftLoop, symHead, isNum, isApplyMul, hu, hv, hw]
 
+/-- unary `+` and `/`, chained conversions (left-nested), a lambda `x: body` taking everything to its right, and unary minus
+against `^` on both sides (`-a^b` = `-(a^b)`, `a^-b` = `a^(-b)`) -/
+theorem shapes_unary_lambda (a b u v x : String) (hu : u ≠ "%") (hv : v ≠ "%") (hx : x ≠ "%") (g : Nat) :
+    run (g + 60) .statements [.sym .add, .num a] = some (.pos (.num a), []) ∧
+    run (g + 60) .statements [.sym .div, .num a] = some (.udiv (.num a), []) ∧
+    run (g + 60) .statements [.num a, .sym .conv, .ident u, .sym .conv, .ident v] = some (.as_ (.as_ (.num a) (.ident u)) (.ident v), []) ∧
+    run (g + 60) .statements [.ident x, .sym .fn_, .ident x, .sym .add, .num a] = some (.fn_ x (.bop .plus (.ident x) (.num a)), []) ∧
+    run (g + 60) .statements [.sym .sub, .num a, .sym .pow, .num b] = some (.neg (.bop .pow (.num a) (.num b)), []) ∧
+    run (g + 60) .statements [.num a, .sym .pow, .sym .sub, .num b] = some (.bop .pow (.num a) (.neg (.num b)), []) := by
+  refine ⟨?_, ?_, ?_, ?_, ?_, ?_⟩ <;> simp [run, leftLoop, symHead, isNum, isApplyMul, hu, hv, hx]
+
 end Fend.Parser
